@@ -28,6 +28,12 @@ Definition allowed_weak (r : result) : Prop :=
   | RVal | RExc (XNSP Self) | RExc (XZombie Self) | RExc (XAD Self) => True
   | RExc _ => False
   end.
+(* tree calls (parent, parents, children): errors of the other Process objects they query may carry that pid *)
+Definition allowed_tree (r : result) (gone_at_end : bool) : Prop :=
+  match r with
+  | RExc (XNSP Other) | RExc (XZombie Other) | RExc (XAD Other) => True
+  | _ => allowed r gone_at_end
+  end.
 Definition allowedb (r : result) (gone_at_end : bool) : bool :=
   match r with
   | RVal => true
